@@ -3,6 +3,7 @@ package harness
 import (
 	"encoding/json"
 	"fmt"
+	"github.com/goghcrow/go-co/seq"
 	"io"
 	"strings"
 	"sync"
@@ -159,7 +160,84 @@ func runC14Race(w io.Writer, progs []Prog, m, rounds int) {
 			}
 		}
 	}
-	fmt.Fprintf(w, "{\"rounds\":%d,\"goroutines\":%d,\"mismatches\":%d}\n", rounds, 2*len(progs), bad)
+	// the range-iterator constructors of the runtime on degenerate and small inputs: every goroutine
+	// makes and drains iterators of its own; equal inputs must not lead to a shared object
+	ctors := rangeCtorRuns()
+	soloC := make([]string, len(ctors))
+	for i, f := range ctors {
+		soloC[i] = f()
+	}
+	for r := 0; r < rounds; r++ {
+		var wg sync.WaitGroup
+		got := make([]string, 2*len(ctors))
+		start := make(chan struct{})
+		for i := range got {
+			i := i
+			wg.Add(1)
+			go func() {
+				defer wg.Done()
+				<-start
+				got[i] = ctors[i/2]()
+			}()
+		}
+		close(start)
+		wg.Wait()
+		for i := range got {
+			if got[i] != soloC[i/2] {
+				bad++
+			}
+		}
+	}
+	fmt.Fprintf(w, "{\"rounds\":%d,\"goroutines\":%d,\"mismatches\":%d}\n", rounds, 2*len(progs)+2*len(ctors), bad)
+}
+
+func drainPairs[K any](it seq.Iterator[K]) string {
+	var sb strings.Builder
+	for n := 0; n < 8 && it.MoveNext(); n++ {
+		fmt.Fprint(&sb, it.Current(), " ")
+	}
+	// (the range iterators are only ever advanced until the first false: no further call here)
+	return sb.String()
+}
+
+func rangeCtorRuns() []func() string {
+	var out []func() string
+	for _, n := range []int{0, -3, 3} {
+		n := n
+		out = append(out, func() string {
+			return drainPairs(seq.NewIntegerIter(n))
+		})
+	}
+	for _, s := range []string{"", "ab"} {
+		s := s
+		out = append(out, func() string {
+			return drainPairs(seq.NewStringIter(s))
+		})
+	}
+	for _, sl := range [][]int{nil, {}, {1, 2}} {
+		sl := sl
+		out = append(out, func() string {
+			return drainPairs(seq.NewSliceIter(sl))
+		})
+	}
+	for _, m := range []map[int]int{nil, {}, {1: 1}} {
+		m := m
+		out = append(out, func() string {
+			return drainPairs(seq.NewMapIter(m))
+		})
+	}
+	for _, k := range []int{0, 2} {
+		k := k
+		out = append(out, func() string {
+			ch := make(chan int, k)
+			for i := 0; i < k; i++ {
+				ch <- i
+			}
+			close(ch)
+			return drainPairs(seq.NewChanIter[int](ch))
+		})
+	}
+	return out
 }
 
 // ---- C17: stack depth samples of one drain
